@@ -11,6 +11,7 @@ import CBV.Lemmas.C09Copy
 import CBV.Lemmas.C09Arc
 import CBV.Lemmas.C09Entity
 import CBV.Lemmas.C09Seq
+import CBV.Lemmas.C09CopyOut
 
 namespace CBV.C09
 open CBV
@@ -462,5 +463,49 @@ theorem T_C09_copy_independent_rev (t : RT) (e : Ent) (h : Heap) (hin : InHeap e
   obtain ⟨v, hv, hvi⟩ := List.mem_map.mp hmem
   have := hin v hv
   omega
+
+/-- the copy writes the same output geometry as the original (same skeleton, same values through every leaf) -/
+theorem T_C09_copy_output (e : Ent) (h : Heap) (hin : InHeap e h) :
+    resolveE (copy e h).2 (copy e h).1 = resolveE h e := by
+  obtain ⟨_, hvals, hskel, _⟩ := T_C09_copy e h hin
+  exact resolve_of_skel_vals h _ e _ hskel hvals
+
+/-- … and whatever is then done to the copy, the ORIGINAL still writes the output it wrote before; together with
+    `T_C09_output` for the copy (its cells are fresh, so it inherits NoAlias-free reasoning cell by cell): transforming
+    the copy = transforming the output of the original, the original untouched -/
+theorem T_C09_copy_output_independent (t : RT) (e : Ent) (h : Heap) (hin : InHeap e h) :
+    resolveE (applyE t (copy e h).1 (copy e h).2).2 e = resolveE h e := by
+  apply resolve_of_skel_vals h _ e e rfl
+  simp only [valsE]
+  apply List.map_congr_left
+  intro v hv
+  rw [T_C09_copy_independent t e h hin v.1 (hin v hv)]
+
+/-- the other direction: transforming the original leaves the output of the copy what it was -/
+theorem T_C09_copy_output_independent_rev (t : RT) (e : Ent) (h : Heap) (hin : InHeap e h) :
+    resolveE (applyE t e (copy e h).2).2 (copy e h).1 = resolveE h e := by
+  rw [← T_C09_copy_output e h hin]
+  apply resolve_of_skel_vals _ _ _ _ rfl
+  simp only [valsE]
+  apply List.map_congr_left
+  intro v hv
+  obtain ⟨_, _, _, hfresh⟩ := T_C09_copy e h hin
+  rw [T_C09_copy_independent_rev t e h hin v.1 (hfresh v hv).1]
+
+/-- NoAlias is preserved by `copy`: the cells of the copy of a tree without shared leaves are consecutive fresh numbers -/
+theorem T_C09_copy_noalias (e : Ent) (h : Heap) (hna : NoAlias e) : NoAlias (copy e h).1 :=
+  copy_noalias e h hna
+
+/-- **copy, then transform**: the transformed copy writes the transformed output of the original (and by
+    `T_C09_copy_output_independent` the original still writes its own) -/
+theorem T_C09_copy_transform (t : RT) (e : Ent) (h : Heap) (hna : NoAlias e) (hin : InHeap e h) :
+    resolveE (applyE t (copy e h).1 (copy e h).2).2 (applyE t (copy e h).1 (copy e h).2).1 = mapV t (resolveE h e) := by
+  obtain ⟨_, _, _, hfresh⟩ := T_C09_copy e h hin
+  rw [T_C09_output t _ _ (T_C09_copy_noalias e h hna) (fun v hv => (hfresh v hv).2), T_C09_copy_output e h hin]
+
+example : NoAlias sampleShape ∧ InHeap sampleShape (List.replicate 10 V3.zero) := by
+  constructor
+  · unfold NoAlias; decide
+  · unfold InHeap; decide
 
 end CBV.C09
